@@ -129,7 +129,7 @@ def _parse_ndp_options (raw, prev, offset = 0, buf_len = None):
   remaining = buf_len - offset
   r = []
 
-  while offset < buf_len - 2:
+  while offset < buf_len:
     if (buf_len - offset) % 8 != 0:
       raise RuntimeError("Bad option data length")
     offset,o = NDOptionBase.unpack_new(raw, offset, buf_len, prev=prev)
@@ -1010,6 +1010,9 @@ class icmpv6 (packet_base):
 
     offset,self.next = cls.unpack_new(raw, offset=self.MIN_LEN,
         buf_len=buf_len,prev=self)
+    if offset != buf_len:
+      # The body was not decoded to its end; keep the bytes instead
+      self.next = raw[self.MIN_LEN:buf_len]
 
 
   def hdr (self, payload):
